@@ -10,7 +10,7 @@ python3 tools/genroot.py
 LEAN_TARGETS=$(python3 - <<'PY'
 import json,glob
 t=set()
-for f in glob.glob('checks/C*.json'):
+for f in ['checks/%s.json' % l.strip() for l in open('checks/REGISTERED') if l.strip()]:
     s=json.load(open(f))
     t.add(s['theorems']['module'])
     for x in s.get('streams',[]): t.add(x['driver'])
@@ -20,7 +20,7 @@ PY
 ENGINES=$(python3 - <<'PY'
 import json,glob
 t=set()
-for f in glob.glob('checks/C*.json'):
+for f in ['checks/%s.json' % l.strip() for l in open('checks/REGISTERED') if l.strip()]:
     s=json.load(open(f))
     for x in s.get('streams',[]): t.add(x['engine'])
 print(' '.join('-p '+e for e in sorted(t)))
@@ -30,7 +30,7 @@ python3 - <<'PY'
 import sys
 sys.path.insert(0,'tools')
 import json,glob,extract
-for f in glob.glob('checks/C*.json'):
+for f in ['checks/%s.json' % l.strip() for l in open('checks/REGISTERED') if l.strip()]:
     for name in json.load(open(f)).get('extract',[]):
         extract.run(name)
 PY
